@@ -33,6 +33,13 @@ pub enum Trial {
     ExitContract { specs: Vec<ExecSpec>, kinds: Vec<String>, class: String, exit_code: Option<i32>, label: String },
     /// C16: invalid option combination: rejected with non-zero status before any output is written.
     Rejected { spec: ExecSpec, label: String },
+    /// C20: user-configured checks: exactly the expected messages, nothing else.
+    Custom { spec: ExecSpec, expect: CustomExpect, exit_code: i32, label: String },
+    /// C20: an absent and an all-default custom-checks file give identical results.
+    SameOutputs { a: ExecSpec, b: ExecSpec, label: String },
+    /// C15: statistics file round trip (run A writes, run B verifies under another schedule) and
+    /// drift detection: every leaf of the written file perturbed one at a time, plus an input change.
+    StatsRt { a: ExecSpec, b: ExecSpec, exit_code: i32, enumerate_leaves: bool, label: String },
     /// C13: stave-level frame verdicts equal the encoder's ground truth; the verdict and the
     /// readout-flag counters do not depend on the pixel-hit content (runs differ only in it).
     Alpide { runs: Vec<AlpideRun>, flags: Vec<u64>, label: String },
@@ -107,6 +114,20 @@ pub struct FrameExpect {
     pub sub_codes: Vec<String>,
     pub empty: bool,
     pub dont_care: bool,
+}
+
+#[derive(Serialize, Deserialize, Clone, Debug, PartialEq, Default)]
+pub struct CustomExpect {
+    pub e9001: bool,
+    pub e9002: bool,
+    /// [E10] (header ID) expected at each of these RDH offsets
+    pub e10_offsets: Vec<u64>,
+    /// frame starts where a lane-error message carrying this E900x code is expected
+    pub frame_codes: Vec<(u64, String)>,
+    /// frame starts that must carry no lane-error message
+    pub clean_frames: Vec<u64>,
+    /// TDH offsets where [E45] is expected
+    pub e45_offsets: Vec<u64>,
 }
 
 #[derive(Serialize, Deserialize, Clone, Debug, PartialEq)]
@@ -357,6 +378,35 @@ impl Trial {
             Trial::Truthful { spec, label } => crate::t_stream::run_truthful(ex, spec, label),
             Trial::Isolate { runs, by_fee, label } => crate::t_isolate::run_isolate(ex, runs, *by_fee, label),
             Trial::Alpide { runs, flags, label } => run_alpide(ex, runs, flags, label),
+            Trial::Custom { spec, expect, exit_code, label } => run_custom(ex, spec, expect, *exit_code, label),
+            Trial::SameOutputs { a, b, label } => {
+                let ra = ex.exec(a);
+                let mut out = TrialOutcome {
+                    nontrivial: ra.outcome.threads >= 4,
+                    key: case_key(&a.input, &ra),
+                    labels: vec![label.clone()],
+                    ..Default::default()
+                };
+                if let Some(f) = check_orderly(&ra) {
+                    out.fail = Some(f);
+                    return out;
+                }
+                let rb = ex.exec(b);
+                if let Some(f) = check_orderly(&rb) {
+                    out.fail = Some(f);
+                    return out;
+                }
+                if let Some(mut f) = compare_runs(&observe(&ra), &observe(&rb)) {
+                    f.class = "custom-checks".into();
+                    f.site = format!("default-file-changes-result:{}", f.site);
+                    f.message = format!("`{}` vs `{}`: {}", a.cmdline(), b.cmdline(), f.message);
+                    out.fail = Some(f);
+                }
+                out
+            }
+            Trial::StatsRt { a, b, exit_code, enumerate_leaves, label } => {
+                crate::t_statsrt::run_stats_rt(ex, a, b, *exit_code, *enumerate_leaves, label)
+            }
             Trial::Fault { runs, expects, silent_in_sanity, silent_in_sanity_no_target, exit_code, fault } => {
                 run_fault(ex, runs, expects, *silent_in_sanity, *silent_in_sanity_no_target, *exit_code, fault)
             }
@@ -397,6 +447,9 @@ impl Trial {
             Trial::Fault { runs, .. } => runs.iter_mut().map(|(_, s)| s).collect(),
             Trial::Isolate { runs, .. } => runs.iter_mut().map(|(_, s)| s).collect(),
             Trial::Alpide { runs, .. } => runs.iter_mut().map(|r| &mut r.spec).collect(),
+            Trial::StatsRt { a, b, .. } => vec![a, b],
+            Trial::Custom { spec, .. } => vec![spec],
+            Trial::SameOutputs { a, b, .. } => vec![a, b],
             Trial::FsmWalk { .. } => vec![],
             Trial::ExcessPadding { spec, .. } => vec![spec],
             Trial::Views { plain, styled, .. } => vec![plain, styled],
@@ -496,6 +549,18 @@ impl Trial {
                 "runs": kinds, "exec": s(&specs[0])}),
             Trial::Rejected { spec, label } => json!({"trial": "rejected", "label": label, "exec": s(spec)}),
             Trial::Truthful { spec, label } => json!({"trial": "truthful", "label": label, "exec": s(spec)}),
+            Trial::Custom { spec, expect, exit_code, label } => json!({
+                "trial": "custom-checks", "label": label, "any_errors_exit_code": exit_code,
+                "custom_checks_toml": spec.custom_checks_toml,
+                "expect": {"E9001": expect.e9001, "E9002": expect.e9002, "E10_at_rdhs": expect.e10_offsets.len(),
+                           "frames_with_E900x": expect.frame_codes.len(), "clean_frames": expect.clean_frames.len(),
+                           "E45_at_tdhs": expect.e45_offsets.len()},
+                "exec": s(spec)}),
+            Trial::SameOutputs { a, b, label } => json!({
+                "trial": "same-outputs", "label": label, "a": s(a), "b_cmdline": b.cmdline(), "b_custom_checks_toml": b.custom_checks_toml}),
+            Trial::StatsRt { a, b, exit_code, enumerate_leaves, label } => json!({
+                "trial": "stats-round-trip", "label": label, "any_errors_exit_code": exit_code,
+                "all_leaves_perturbed": enumerate_leaves, "run_a": s(a), "run_b_cmdline": b.cmdline()}),
             Trial::Alpide { runs, flags, label } => json!({
                 "trial": "alpide", "label": label, "frames": runs[0].frames.len(),
                 "frames_with_broken_rule": runs[0].frames.iter().filter(|f| f.lanes_code.is_some() || f.lane_err_code.is_some() || f.empty).count(),
@@ -1278,6 +1343,94 @@ fn run_alpide(ex: &mut Executor, runs: &[AlpideRun], flags: &[u64], label: &str)
             out.fail = Some(Fail::new("alpide-stats", "stats-file-missing", format!("no statistics file [cmd: {cmd}]")));
             return out;
         }
+    }
+    out
+}
+
+fn run_custom(ex: &mut Executor, spec: &ExecSpec, expect: &CustomExpect, exit_code: i32, label: &str) -> TrialOutcome {
+    let r = ex.exec(spec);
+    let mut out = TrialOutcome {
+        nontrivial: r.outcome.threads >= 4,
+        key: case_key(&spec.input, &r),
+        labels: vec![label.to_string()],
+        ..Default::default()
+    };
+    if let Some(f) = check_orderly(&r) {
+        out.fail = Some(f);
+        return out;
+    }
+    let errs: Vec<oracle::ErrMsg> = crate::t_exit::shown_errors(&r);
+    let cmd = spec.cmdline();
+    let toml = spec.custom_checks_toml.clone().unwrap_or_default().replace('\n', "; ");
+    let mk = |site: &str, m: String| Some(Fail::new("custom-checks", site, format!("{m} [cmd: {cmd}; checks: {toml}]")));
+    let has = |code: &str| errs.iter().any(|e| e.codes.iter().any(|c| c == code) && e.offset.is_none());
+    for (code, want) in [("E9001", expect.e9001), ("E9002", expect.e9002)] {
+        if has(code) != want {
+            out.fail = mk(
+                &format!("{code}-{}", if want { "not-reported" } else { "reported-without-cause" }),
+                format!("[{code}] expected: {want}, reported: {}", has(code)),
+            );
+            return out;
+        }
+    }
+    // E10 header-ID messages exactly at the expected RDHs
+    let mut got10: Vec<u64> = errs
+        .iter()
+        .filter(|e| e.codes.first().map_or(false, |c| c == "E10") && e.text.contains("Header ID"))
+        .filter_map(|e| e.offset)
+        .collect();
+    got10.sort_unstable();
+    let mut want10 = expect.e10_offsets.clone();
+    want10.sort_unstable();
+    if got10 != want10 {
+        out.fail = mk(
+            if got10.len() < want10.len() { "E10-version-not-reported" } else { "E10-version-reported-without-cause" },
+            format!("[E10] header-ID messages at {} RDHs, expected at {}", got10.len(), want10.len()),
+        );
+        return out;
+    }
+    // E45 exactly at the expected TDHs
+    let mut got45: Vec<u64> =
+        errs.iter().filter(|e| e.codes.first().map_or(false, |c| c == "E45")).filter_map(|e| e.offset).collect();
+    got45.sort_unstable();
+    let mut want45 = expect.e45_offsets.clone();
+    want45.sort_unstable();
+    if got45 != want45 {
+        let missing: Vec<String> = want45.iter().filter(|o| !got45.contains(o)).take(3).map(|o| format!("{o:#X}")).collect();
+        let extra: Vec<String> = got45.iter().filter(|o| !want45.contains(o)).take(3).map(|o| format!("{o:#X}")).collect();
+        out.fail = mk(
+            if !missing.is_empty() { "E45-not-reported" } else { "E45-reported-without-cause" },
+            format!("[E45] at {} TDHs, expected at {}; missing {missing:?}, unexpected {extra:?}", got45.len(), want45.len()),
+        );
+        return out;
+    }
+    // frame-level chip count / order
+    for (off, code) in &expect.frame_codes {
+        let hit = errs.iter().any(|e| e.offset == Some(*off) && e.text.contains(&format!("[{code}]")));
+        if !hit {
+            out.fail = mk(&format!("{code}-not-reported"), format!("frame at {off:#X}: no lane-error message with [{code}]"));
+            return out;
+        }
+    }
+    for off in &expect.clean_frames {
+        if let Some(e) = errs.iter().find(|e| e.offset == Some(*off) && (e.text.contains("[E9004]") || e.text.contains("[E9005]"))) {
+            out.fail = mk("E900x-reported-without-cause", format!("frame at {off:#X} satisfies the configured chip count/order but: {}", clip(&e.text)));
+            return out;
+        }
+    }
+    // nothing else
+    let expected_any = expect.e9001
+        || expect.e9002
+        || !expect.e10_offsets.is_empty()
+        || !expect.e45_offsets.is_empty()
+        || !expect.frame_codes.is_empty();
+    if !expected_any && !errs.is_empty() {
+        out.fail = mk("unexpected-message", format!("no configured value differs from the data, yet: {}", clip(&errs[0].text)));
+        return out;
+    }
+    let want_status = if expected_any { exit_code } else { 0 };
+    if r.status != want_status {
+        out.fail = mk("exit-status", format!("exit status {} (expected {want_status})", r.status));
     }
     out
 }
